@@ -38,7 +38,8 @@ TABLE = {
         "random points of generated histories); within the model's bound the "
         "daemon must leave its loop, no worker may keep running, control, "
         "event and managed sockets must be closed and unix socket files "
-        "gone. Pid files with empty, garbled, huge, own, live and dead "
+        "gone (workers stopped by SIGSTOP and user-written stream classes "
+        "without close() included). Pid files with empty, garbled, huge, own, live and dead "
         "contents must be refused iff they name another live process."),
   note=SIM_NOTE + " sys.exit status and the pid-file removal of circusd.main belong to the live tier."),
  "C16": dict(
@@ -99,7 +100,7 @@ TABLE = {
   note=SIM_NOTE),
  "C12": dict(
   engine="E1-simworld", category="exploration", design_ref="DESIGN.md §4 C12",
-  technique="model-based property testing: a configuration model rendered to ini text, generated edit sequences (add/remove/set/revert/no-op) each followed by reloadconfig; oracles = the model, a differential against a fresh Watcher.load_from_config of the same file, and kernel pid sets / logs",
+  technique="model-based property testing: a configuration model rendered to ini text, generated edit sequences (add/remove/set/revert/no-op, singly or several per reload) followed by reloadconfig; oracles = the model, a differential against a fresh Watcher.load_from_config of the same file, and kernel pid sets / logs",
   text=("After every generated edit + reloadconfig the daemon's list, "
         "options and live worker counts are compared with the file's model "
         "and with a fresh load of the same text; unchanged watchers must "
@@ -152,13 +153,15 @@ TABLE = {
   text=("Generated histories overlap exclusive and non-exclusive requests "
         "with stubborn workers, hooks, exec failures and (in half of the "
         "runs) the real PeriodicCallback; after every op a read-only request "
-        "must be answered synchronously with its payload, no loop iteration "
-        "may sleep more than 0.25 s of virtual time, and every accepted "
+        "must be answered synchronously with its payload and without time "
+        "passing, no loop iteration may spend more than 0.25 s in sleeps, "
+        "psutil's blocking cpu sample, failed spawns (2 ms each) or a read "
+        "of an empty capture pipe, and every accepted "
         "waiting request must be answered within the model's bound; an "
         "enumerated family (one waiting request alone on 2-4 workers that "
         "ignore the stop signal) requires the answer within graceful_timeout "
         "+ numprocesses x warmup_delay + 0.3 s."),
-  note=SIM_NOTE + " Only time.sleep is observed as a blocking primitive; real-OS stalls are out of reach."),
+  note=SIM_NOTE + " Blocking primitives modelled: time.sleep, cpu_percent(interval), failed fork+exec, os.read on a capture pipe; real-OS stalls are out of reach."),
  "C03": dict(
   engine="E1-simworld", category="exploration", design_ref="DESIGN.md §4 C03",
   technique="property-based testing over generated termination histories with worker reaction delays placed around graceful_timeout; invariant oracle over the simulated kernel's per-pid signal log with exact virtual timestamps",
